@@ -21,6 +21,7 @@ import (
 	"sync"
 	"testing"
 
+	"github.com/BondMachineHQ/BondMachine/pkg/bondmachine"
 	"pgregory.net/rapid"
 	"verifharness/pbt"
 )
@@ -57,6 +58,13 @@ const (
 	sigEndJump   = "D-C12-jump-past-last-rom-address"
 	sigDefMem    = "D-C12-define-of-ram-name-never-binds"
 	sigSemantics = "semantics-differ"
+	// round 4
+	sigOctal     = "D-C12-legacy-octal-literal-read-as-decimal"
+	sigBrkSwitch = "D-C12-break-in-switch-leaves-the-loop"
+	sigCallStmt  = "D-C12-call-statement-emits-nothing"
+	sigIOIds     = "D-C12-io-ids-exhausted-allocator-sends-no-answer"
+	sigIOOrder   = "D-C12-io-named-by-declaration-bound-by-make-order"
+	sigGoArgs    = "D-C12-go-value-args-map-order"
 )
 
 // openFindings: recorded defects of the unchanged /repo. A failure carrying one of these signatures on
@@ -72,6 +80,13 @@ var openFindings = map[string]bool{
 	sigLeak:     true,
 	sigDefIgn:   true,
 	sigDefMem:   true,
+	// round 4
+	sigOctal:     true,
+	sigBrkSwitch: true,
+	sigCallStmt:  true,
+	sigIOIds:     true,
+	sigIOOrder:   true,
+	sigGoArgs:    true,
 }
 
 func isOpen(sig string) bool {
@@ -117,8 +132,8 @@ func genCase(o GenOpts) func(t *rapid.T) Case {
 		c.ShowReq = rapid.IntRange(0, 7).Draw(t, "showreq") < map[bool]int{true: 4, false: 1}[c.Mpm]
 		c.Plans = genPlans(t)
 		c.HDL = rapid.Bool().Draw(t, "hdl1") && rapid.Bool().Draw(t, "hdl2") && rapid.Bool().Draw(t, "hdl3") // one in eight of the faithful machines
-		c.InVals = make([]uint64, 16)
-		for i := 11; i <= 14; i++ {
+		c.InVals = make([]uint64, nInVals)
+		for i := firstInGid; i < nInVals; i++ {
 			c.InVals[i] = rapid.Uint64().Draw(t, "inval")
 			if rapid.Bool().Draw(t, "smallin") {
 				c.InVals[i] &= 0xf
@@ -127,6 +142,13 @@ func genCase(o GenOpts) func(t *rapid.T) Case {
 		return c
 	}
 }
+
+// external inputs have the global ids firstInGid … nInVals-1 (outputs 1…9: an id used on both sides would be
+// a processor-to-processor bond)
+const (
+	firstInGid = 11
+	nInVals    = 22
+)
 
 func b2i(b bool) int {
 	if b {
@@ -198,6 +220,15 @@ func prop(c Case) pbt.Outcome {
 		sort.Strings(o.Labels)
 		return o
 	}
+	// known: the failure belongs to a recorded finding (the caller has checked the finding's precondition on
+	// the case): counted as excluded, unless the case is Strict or the finding has been repaired
+	known := func(sig string, f *pbt.Failure) pbt.Outcome {
+		f.Sig = sig
+		if c.Strict || !isOpen(sig) {
+			return finish(pbt.Outcome{Fail: f})
+		}
+		return finish(pbt.Outcome{Excluded: sig})
+	}
 	if len(c.Plans) == 0 || (c.Rsize != 8 && c.Rsize != 16 && c.Rsize != 32 && c.Rsize != 64) {
 		return pbt.Outcome{Excluded: "bad-case"}
 	}
@@ -258,6 +289,16 @@ func prop(c Case) pbt.Outcome {
 			*r = RunBondgo(c.Src, c.Rsize, c.Mpm, c.Plans[i])
 		}
 		switch r.Status {
+		case hangNoAnswer:
+			lab("term:allocator-no-answer-deadlock")
+			f := pbt.Failf("compile-deadlock:allocator-sends-no-answer", "bondgo does not terminate (plan %d: GOMAXPROCS=%d VERIF_BONDGO_SCHED=%q): a permanent deadlock, every goroutine is parked: the visitor waits for the allocator's answer to a request (<-bg.Answers), Var_assigner is back at the top of its loop waiting for the next request — it took the request and sent no answer.\n--- source\n%s--- goroutine dump\n%s",
+				i, c.Plans[i].GoMaxProcs, c.Plans[i].Sched, c.Src, dumpHead(r.Dump))
+			if len(facts.IOIdsExhausted) > 0 {
+				// REQ_NEW of an INPUT/OUTPUT cell when all MAX_INPUTS/MAX_OUTPUTS local ids of the processor are taken
+				f.Msg = fmt.Sprintf("routine:kind with more declarations+Make calls than local ids: %v\n", facts.IOIdsExhausted) + f.Msg
+				return known(sigIOIds, f)
+			}
+			return finish(pbt.Outcome{Fail: f})
 		case "hang", "deadlock":
 			return finish(pbt.Outcome{Fail: pbt.Failf("compile-hang", "bondgo does not terminate within %v (plan %d: GOMAXPROCS=%d VERIF_BONDGO_SCHED=%q), not the D8 pattern.\n--- source\n%s--- goroutine dump\n%s",
 				hardTimeout, i, c.Plans[i].GoMaxProcs, c.Plans[i].Sched, c.Src, dumpHead(r.Dump))})
@@ -289,6 +330,11 @@ func prop(c Case) pbt.Outcome {
 					return finish(pbt.Outcome{Fail: f})
 				}
 				return finish(pbt.Outcome{Excluded: sigShLinks})
+			}
+			if len(facts.GoMultiValueArg) > 0 && onlyAsmDiffers(base, runs[i]) {
+				lab("class:go-two-or-more-value-args")
+				return known(sigGoArgs, pbt.Failf(sigGoArgs, "the assembly bondgo writes differs between two runs of the compiler on a program with `go f(a, b, …)` (two or more by-value arguments: %v); status, stdout and machine are equal\n--- source\n%s--- plan %d\n%s--- plan %d\n%s",
+					facts.GoMultiValueArg, c.Src, done[0], base.Fingerprint(), i, runs[i].Fingerprint()))
 			}
 			return finish(pbt.Outcome{Fail: pbt.Failf(sigNondet, "compiler output differs between plan %d (GOMAXPROCS=%d sched=%q) and plan %d (GOMAXPROCS=%d sched=%q)\n--- source\n%s--- plan %d\n%s--- plan %d\n%s",
 				done[0], c.Plans[done[0]].GoMaxProcs, c.Plans[done[0]].Sched, i, c.Plans[i].GoMaxProcs, c.Plans[i].Sched, c.Src, done[0], base.Fingerprint(), i, runs[i].Fingerprint())})
@@ -349,13 +395,6 @@ func prop(c Case) pbt.Outcome {
 	}
 
 	// ---- (iii) semantics
-	known := func(sig string, f *pbt.Failure) pbt.Outcome {
-		f.Sig = sig
-		if c.Strict || !isOpen(sig) {
-			return finish(pbt.Outcome{Fail: f})
-		}
-		return finish(pbt.Outcome{Excluded: sig})
-	}
 	ld, err := LoadMachine(base.Machine, c.Mpm)
 	if err != nil {
 		return finish(pbt.Outcome{Fail: pbt.Failf("machine-unloadable", "the machine bondgo wrote does not load: %v\n--- source\n%s--- json\n%s", err, c.Src, base.Machine)})
@@ -387,6 +426,33 @@ func prop(c Case) pbt.Outcome {
 	if len(ref.Routines) != len(ld.Procs) {
 		return finish(pbt.Outcome{Fail: pbt.Failf("processor-count", "the source has %d routines (main + go statements), the machine has %d processors\n--- source\n%s", len(ref.Routines), len(ld.Procs), c.Src)})
 	}
+	if len(facts.OctalLits) > 0 {
+		lab("class:legacy-octal-literal")
+	}
+	if facts.BreakInSwitch > 0 {
+		lab("class:break-in-switch-in-for")
+	}
+	if len(facts.EffectCallStmt) > 0 {
+		lab("class:call-stmt-with-effect")
+	}
+	if len(facts.IOMakeOrder) > 0 {
+		lab("class:io-make-order")
+	}
+	if c.Mpm && ld.BM != nil {
+		// which global id a processor port is: the bondmachine's external ports are created in ascending order
+		// of global id (converter.go sorts ext_*_keys; it is what the residual map of the compiler says)
+		msg, checked := ioBinding(ld.BM, ref)
+		if checked {
+			lab("sem:io-binding-checked")
+		}
+		if msg != "" {
+			f := pbt.Failf("bm-port-bound-to-another-global-id", "%s\n--- source\n%s--- bonds\n%v", msg, c.Src, bondList(ld.BM))
+			if len(facts.IOMakeOrder) > 0 {
+				return known(sigIOOrder, f)
+			}
+			return finish(pbt.Outcome{Fail: f})
+		}
+	}
 	eqTrue := 0
 	for _, r := range ref.Routines {
 		eqTrue += r.EqTrue
@@ -409,7 +475,58 @@ func prop(c Case) pbt.Outcome {
 	if facts.FallDefault {
 		lab("class:fallthrough-into-default")
 	}
-	classify := func(f *pbt.Failure) pbt.Outcome {
+	// recorded findings whose effect is a different reading of one construct: the finding explains a
+	// mismatch when the machine agrees with the source read the compiler's way (single readings first, then
+	// all the applicable ones together)
+	type reading struct {
+		on  bool
+		sig string
+		rd  refReading
+	}
+	readings := []reading{
+		{len(facts.OctalLits) > 0, sigOctal, refReading{OctalAsDecimal: true}},
+		{facts.BreakInSwitch > 0, sigBrkSwitch, refReading{BreakInSwitchEndsLoop: true}},
+		{len(facts.EffectCallStmt) > 0, sigCallStmt, refReading{SkipEffectCallStmts: true}},
+	}
+	nReadings := 0
+	for _, r := range readings {
+		nReadings += b2i(r.on)
+	}
+	var compare func(rr RoutineRes, got map[int][]uint64, span string) (mismatch string, short bool, n int)
+	explainedBy := func(k int, got map[int][]uint64) string {
+		agrees := func(rd refReading) bool {
+			alt, err := RefEvalAs(c.Src, c.Rsize, c.InVals, bud, rd)
+			if err != nil || k >= len(alt.Routines) {
+				return false
+			}
+			m, _, _ := compare(alt.Routines[k], got, "")
+			return m == ""
+		}
+		var all refReading
+		first := ""
+		for _, r := range readings {
+			if !r.on {
+				continue
+			}
+			if first == "" {
+				first = r.sig
+			}
+			all.OctalAsDecimal = all.OctalAsDecimal || r.rd.OctalAsDecimal
+			all.BreakInSwitchEndsLoop = all.BreakInSwitchEndsLoop || r.rd.BreakInSwitchEndsLoop
+			all.SkipEffectCallStmts = all.SkipEffectCallStmts || r.rd.SkipEffectCallStmts
+			if agrees(r.rd) {
+				return r.sig
+			}
+		}
+		if nReadings >= 2 && agrees(all) {
+			return first
+		}
+		return ""
+	}
+	classify := func(f *pbt.Failure, k int, got map[int][]uint64) pbt.Outcome {
+		if sig := explainedBy(k, got); sig != "" {
+			return known(sig, f)
+		}
 		switch {
 		case len(facts.HoistedIncDec) > 0:
 			return known(sigHoist, f)
@@ -427,7 +544,7 @@ func prop(c Case) pbt.Outcome {
 		return finish(pbt.Outcome{Fail: f})
 	}
 	// compare: prefix-wise per output; short = the machine has (so far) written fewer values than the source
-	compare := func(rr RoutineRes, got map[int][]uint64, span string) (mismatch string, short bool, n int) {
+	compare = func(rr RoutineRes, got map[int][]uint64, span string) (mismatch string, short bool, n int) {
 		for _, idx := range sortedKeys(rr.Streams) {
 			want := rr.Streams[idx]
 			g := got[idx]
@@ -486,7 +603,7 @@ func prop(c Case) pbt.Outcome {
 				mismatch = "simulation stopped: " + serr.Error()
 			}
 			total += n
-			if mismatch != "" && eqTrue > 0 && len(facts.HoistedIncDec)+len(facts.DefineIgnored)+len(facts.LeakDecl)+len(facts.DefineMemShadow)+len(facts.MultiReturn) == 0 {
+			if mismatch != "" && eqTrue > 0 && nReadings+len(facts.HoistedIncDec)+len(facts.DefineIgnored)+len(facts.LeakDecl)+len(facts.DefineMemShadow)+len(facts.MultiReturn) == 0 {
 				// the only recorded finding that applies is je (== compiled to a placeholder). Run the same
 				// ROM again with je executed as the compiler means it: a difference that remains is not
 				// explained by the recorded finding.
@@ -503,7 +620,7 @@ func prop(c Case) pbt.Outcome {
 			}
 			if mismatch != "" {
 				return classify(pbt.Failf(sigSemantics, "register size %d, processor %d (%s), Go simulator: %s\nexpected streams (per output, first 32) %v\nmachine streams  (per output, first 32) %v\n--- source\n%s--- assembly %d\n%s",
-					c.Rsize, k, rr.Func, mismatch, clip(rr.Streams), clip(got), c.Src, k, numbered(base.Asm[k])))
+					c.Rsize, k, rr.Func, mismatch, clip(rr.Streams), clip(got), c.Src, k, numbered(base.Asm[k])), k, got)
 			}
 			if c.Mpm && ld.BM != nil {
 				bonds := ld.BM.List_bonds()
@@ -594,10 +711,15 @@ func prop(c Case) pbt.Outcome {
 			f := pbt.Failf(sigSemantics, "register size %d, processor %d (%s), generated Verilog under the interpreter: %s\nexpected streams (per output, first 32) %v\nhardware streams (per output, first 32) %v\n--- source\n%s--- assembly %d\n%s",
 				c.Rsize, k, rr.Func, mismatch, clip(rr.Streams), clip(h.Streams[k]), c.Src, k, numbered(base.Asm[k]))
 			if allFaithful {
+				// (the Go simulator's j/jz do not jump to an address past the last instruction, the hardware does:
+				// a recorded finding whose effect is a jump out of the routine's last loop shows only here)
+				if sig := explainedBy(k, h.Streams[k]); sig != "" {
+					return known(sig, f)
+				}
 				f.Sig = "hdl-disagrees-where-simulator-agrees"
 				return finish(pbt.Outcome{Fail: f})
 			}
-			return classify(f)
+			return classify(f, k, h.Streams[k])
 		}
 		if allFaithful {
 			lab("sem:hdl-guard-agrees")
@@ -636,6 +758,90 @@ var Props = []*pbt.Entry{
 	pbt.Def("compile_full",
 		"Go-subset programs over the whole accepted grammar: additionally RAM variables (r2m/m2r), == everywhere, switch/fallthrough, -mpm with `go f()` workers, channel producers and by-value goroutine arguments"+ruleCommon,
 		genCase(GenOpts{Faithful: false}), prop),
+}
+
+// onlyAsmDiffers: the two runs ended the same way, said the same and wrote the same machine; the listings differ.
+func onlyAsmDiffers(a, b RunResult) bool {
+	if a.Status != b.Status || a.Stdout != b.Stdout || string(a.Machine) != string(b.Machine) || len(a.Asm) != len(b.Asm) {
+		return false
+	}
+	differ := false
+	for k := range a.Asm {
+		if a.Asm[k] != b.Asm[k] {
+			differ = true
+		}
+	}
+	return differ
+}
+
+func bondList(bm *bondmachine.Bondmachine) []string {
+	var r []string
+	m := bm.List_bonds()
+	for _, k := range sortedKeys(m) {
+		r = append(r, m[k])
+	}
+	return r
+}
+
+// ioBinding checks, on a bondmachine written by bondgo -mpm, that every processor port stands for the global
+// id the source gave (bondgo.Make) to the variable the port is named after. The compiler names a port by the
+// declaration index of its variable (the harness's identity of a stream too); which global id a port IS
+// follows from the bondmachine: external ports are created in ascending order of global id. checked is false
+// when that convention cannot be applied (an id used on both sides, port counts that do not match).
+func ioBinding(bm *bondmachine.Bondmachine, ref RefResult) (msg string, checked bool) {
+	outSet, inSet := map[int]bool{}, map[int]bool{}
+	for _, rr := range ref.Routines {
+		for idx, g := range rr.Gids {
+			if !rr.Inner[idx] {
+				outSet[g] = true
+			}
+		}
+		for _, g := range rr.InGids {
+			inSet[g] = true
+		}
+	}
+	for g := range outSet {
+		if inSet[g] {
+			return "", false
+		}
+	}
+	sorted := func(m map[int]bool) []int {
+		var r []int
+		for g := range m {
+			r = append(r, g)
+		}
+		sort.Ints(r)
+		return r
+	}
+	outs, ins := sorted(outSet), sorted(inSet)
+	if len(outs) != bm.Outputs || len(ins) != bm.Inputs {
+		return "", false
+	}
+	bonds := bondList(bm)
+	for k, rr := range ref.Routines {
+		for _, idx := range sortedKeys(rr.Gids) {
+			if rr.Inner[idx] {
+				continue
+			}
+			for _, b := range bonds {
+				var pp, j, r int
+				if n, _ := fmt.Sscanf(b, "p%do%d,o%d", &pp, &j, &r); n == 3 && pp == k && j == idx && r < len(outs) && outs[r] != rr.Gids[idx] {
+					return fmt.Sprintf("routine %d (%s): the output variable declared #%d is made with global id %d; the compiler writes it to port o%d of processor %d, which is bonded to the bondmachine output o%d, i.e. global id %d (external outputs in ascending id order: %v)",
+						k, rr.Func, idx, rr.Gids[idx], idx, k, r, outs[r], outs), true
+				}
+			}
+		}
+		for _, idx := range sortedKeys(rr.InGids) {
+			for _, b := range bonds {
+				var pp, j, r int
+				if n, _ := fmt.Sscanf(b, "i%d,p%di%d", &r, &pp, &j); n == 3 && pp == k && j == idx && r < len(ins) && ins[r] != rr.InGids[idx] {
+					return fmt.Sprintf("routine %d (%s): the input variable declared #%d is made with global id %d; the compiler reads it from port i%d of processor %d, which is bonded to the bondmachine input i%d, i.e. global id %d (external inputs in ascending id order: %v)",
+						k, rr.Func, idx, rr.InGids[idx], idx, k, r, ins[r], ins), true
+				}
+			}
+		}
+	}
+	return "", true
 }
 
 // jumpsPastFullRom: the listing has exactly 2^k lines and a jump whose target is the address one past the
@@ -944,6 +1150,135 @@ func init() {
 	}...)
 }
 
+func init() {
+	knownCases = append(knownCases, []struct {
+		file, entry, sig string
+		c                Case
+	}{
+		// round 4
+		{"legacy-octal-literal-read-as-decimal", "compile_faithful", sigOctal, Case{Rsize: 8, Plans: manyPlans(3), Src: hdr + `func main() {
+	var out0 bondgo.Output
+	var reg_a uint8
+	var reg_b uint8
+	out0 = bondgo.Make(bondgo.Output, 1)
+	for {
+		reg_a = reg_a + 017
+		reg_b = reg_b + 2
+		bondgo.IOWrite(out0, reg_a)
+		bondgo.IOWrite(out0, reg_a+reg_b)
+	}
+}
+`}},
+		{"break-in-switch-leaves-the-loop", "compile_faithful", sigBrkSwitch, Case{Rsize: 8, Plans: manyPlans(3), Src: hdr + `func main() {
+	var out0 bondgo.Output
+	var reg_a uint8
+	var reg_b uint8
+	out0 = bondgo.Make(bondgo.Output, 1)
+	for {
+		for {
+			switch reg_a {
+			default:
+				break
+			}
+			reg_a = reg_a + 1
+			break
+		}
+		reg_b = reg_b + 2
+		bondgo.IOWrite(out0, reg_a)
+		bondgo.IOWrite(out0, reg_a+reg_b)
+	}
+}
+`}},
+		{"call-statement-emits-nothing", "compile_faithful", sigCallStmt, Case{Rsize: 8, Plans: manyPlans(3), Src: hdr + `func e1(v uint8) {
+	var o bondgo.Output
+	o = bondgo.Make(bondgo.Output, 2)
+	bondgo.IOWrite(o, v)
+}
+
+func main() {
+	var out0 bondgo.Output
+	var reg_a uint8
+	var reg_b uint8
+	out0 = bondgo.Make(bondgo.Output, 1)
+	for {
+		reg_a = reg_a + 1
+		reg_b = reg_b + 2
+		e1(reg_a)
+		bondgo.IOWrite(out0, reg_a+reg_b)
+	}
+}
+`}},
+		// nine inputs: 9 declarations + 9 Make calls ask for 18 of the 16 local input ids
+		{"io-ids-exhausted-allocator-sends-no-answer", "compile_faithful", sigIOIds, Case{Rsize: 8, Plans: manyPlans(3), Src: hdr + `func main() {
+	var out0 bondgo.Output
+	var in0 bondgo.Input
+	var in1 bondgo.Input
+	var in2 bondgo.Input
+	var in3 bondgo.Input
+	var in4 bondgo.Input
+	var in5 bondgo.Input
+	var in6 bondgo.Input
+	var in7 bondgo.Input
+	var in8 bondgo.Input
+	var reg_a uint8
+	out0 = bondgo.Make(bondgo.Output, 1)
+	in0 = bondgo.Make(bondgo.Input, 11)
+	in1 = bondgo.Make(bondgo.Input, 12)
+	in2 = bondgo.Make(bondgo.Input, 13)
+	in3 = bondgo.Make(bondgo.Input, 14)
+	in4 = bondgo.Make(bondgo.Input, 15)
+	in5 = bondgo.Make(bondgo.Input, 16)
+	in6 = bondgo.Make(bondgo.Input, 17)
+	in7 = bondgo.Make(bondgo.Input, 18)
+	in8 = bondgo.Make(bondgo.Input, 19)
+	for {
+		reg_a = reg_a + bondgo.IORead(in0) + bondgo.IORead(in8)
+		bondgo.IOWrite(out0, reg_a)
+	}
+}
+`}},
+		{"io-named-by-declaration-bound-by-make-order", "compile_faithful", sigIOOrder, Case{Rsize: 8, Mpm: true, Plans: manyPlans(3), Src: hdr + `func main() {
+	var out0 bondgo.Output
+	var out1 bondgo.Output
+	var reg_a uint8
+	var reg_b uint8
+	out1 = bondgo.Make(bondgo.Output, 3)
+	out0 = bondgo.Make(bondgo.Output, 5)
+	for {
+		reg_a = reg_a + 1
+		reg_b = reg_b + 2
+		bondgo.IOWrite(out0, reg_a)
+		bondgo.IOWrite(out1, reg_a+reg_b)
+	}
+}
+`}},
+		// map iteration order: each of the two orders shows up often, hence the many plans
+		{"go-value-args-map-order", "compile_full", sigGoArgs, Case{Rsize: 8, Mpm: true, Plans: manyPlans(24), Src: hdr + `func w1(k uint8, j uint8) {
+	var outw bondgo.Output
+	var reg_p uint8
+	outw = bondgo.Make(bondgo.Output, 2)
+	reg_p = k
+	for {
+		reg_p = reg_p + j
+		bondgo.IOWrite(outw, reg_p)
+	}
+}
+
+func main() {
+	var out0 bondgo.Output
+	var reg_a uint8
+	var reg_b uint8
+	out0 = bondgo.Make(bondgo.Output, 1)
+	go w1(5, 3)
+	for {
+		reg_a = reg_a + 1
+		bondgo.IOWrite(out0, reg_a+reg_b)
+	}
+}
+`}},
+	}...)
+}
+
 func TestWriteKnown(t *testing.T) {
 	dir := os.Getenv("VERIF_C12_WRITE_KNOWN")
 	if dir == "" {
@@ -957,7 +1292,7 @@ func TestWriteKnown(t *testing.T) {
 			continue // repaired in /repo: its replay lives outside known/ and must pass
 		}
 		k.c.Strict = true
-		k.c.InVals = make([]uint64, 16)
+		k.c.InVals = make([]uint64, nInVals)
 		out := pbt.Guard(func() pbt.Outcome { return prop(k.c) })
 		if out.Fail == nil {
 			t.Errorf("%s: does not fail (excluded=%q labels=%v)", k.file, out.Excluded, out.Labels)
@@ -1196,5 +1531,116 @@ func TestHDLProbe(t *testing.T) {
 	fmt.Printf("ref err=%v\n", rerr)
 	for p, rr := range ref.Routines {
 		fmt.Printf("ref proc %d: %v\n", p, clip(rr.Streams))
+	}
+}
+
+// TestRefRound4 pins the reference and the fact walker on the round-4 shapes (values checked against a real Go
+// program: 017 is fifteen; a break inside a switch clause ends the switch, a continue acts on the loop; a call
+// used as a statement keeps the callee's side effects).
+func TestRefRound4(t *testing.T) {
+	src := hdr + `func e1(v uint8) {
+	var oute bondgo.Output
+	oute = bondgo.Make(bondgo.Output, 7)
+	bondgo.IOWrite(oute, v)
+}
+
+func f1(a0 uint8) uint8 {
+	return a0 + 1
+}
+
+func main() {
+	var out0 bondgo.Output
+	var out1 bondgo.Output
+	var reg_a uint8
+	var reg_n uint8
+	out1 = bondgo.Make(bondgo.Output, 3)
+	out0 = bondgo.Make(bondgo.Output, 5)
+	bondgo.IOWrite(out0, 017)
+	bondgo.IOWrite(out0, 0x1F)
+	bondgo.IOWrite(out0, 0b101)
+	bondgo.IOWrite(out0, 07)
+	for reg_a = 0; reg_a == 0; reg_a = reg_a + 1 {
+		switch reg_a {
+		case 0:
+			break
+		}
+		bondgo.IOWrite(out1, 7)
+	}
+	bondgo.IOWrite(out1, 9)
+	for {
+		switch reg_a {
+		case 50:
+			bondgo.IOWrite(out1, 1)
+		default:
+			if reg_n == 0 {
+				break
+			}
+			bondgo.IOWrite(out1, 2)
+		}
+		bondgo.IOWrite(out1, 3)
+		reg_n = reg_n + 1
+		if reg_n == 2 {
+			break
+		}
+	}
+	f1(reg_a)
+	e1(reg_n + 40)
+	for {
+		bondgo.IOWrite(out0, reg_n)
+	}
+}
+`
+	in := make([]uint64, nInVals)
+	r, err := RefEval(src, 8, in, refBudget{MaxEvals: 4000, MaxWrites: 14})
+	if err != nil {
+		t.Fatal(err)
+	}
+	rr := r.Routines[0]
+	if got, exp := fmt.Sprint(rr.Streams[0]), "[15 31 5 7 2 2 2 2]"; got != exp {
+		t.Errorf("out0 %s, expected %s", got, exp)
+	}
+	if got, exp := fmt.Sprint(rr.Streams[1]), "[7 9 3 2 3]"; got != exp {
+		t.Errorf("out1 %s, expected %s", got, exp)
+	}
+	if got, exp := fmt.Sprint(rr.Streams[2]), "[42]"; got != exp || !rr.Inner[2] || rr.Gids[2] != 7 {
+		t.Errorf("emitter's output %s (inner=%v gid=%d), expected %s on an inner output with id 7", got, rr.Inner[2], rr.Gids[2], exp)
+	}
+	// the compiler's readings
+	alt, err := RefEvalAs(src, 8, in, refBudget{MaxEvals: 4000, MaxWrites: 14}, refReading{OctalAsDecimal: true, BreakInSwitchEndsLoop: true, SkipEffectCallStmts: true})
+	if err != nil {
+		t.Fatal(err)
+	}
+	ar := alt.Routines[0]
+	if got, exp := fmt.Sprint(ar.Streams[0]), "[17 31 5 7 0 0 0 0 0 0 0 0 0]"; got != exp {
+		t.Errorf("compiler's reading, out0 %s, expected %s", got, exp)
+	}
+	if got, exp := fmt.Sprint(ar.Streams[1]), "[9]"; got != exp { // both switch-breaks leave their loops
+		t.Errorf("compiler's reading, out1 %s, expected %s", got, exp)
+	}
+	if len(ar.Streams[2]) != 0 {
+		t.Errorf("compiler's reading: the call statement still writes %v", ar.Streams[2])
+	}
+	f, err := StaticFacts(src)
+	if err != nil {
+		t.Fatal(err)
+	}
+	if fmt.Sprint(f.OctalLits) != "[017]" || f.BreakInSwitch != 2 || fmt.Sprint(f.EffectCallStmt) != "[e1]" || fmt.Sprint(f.CallStmt) != "[f1 e1]" ||
+		fmt.Sprint(f.IOMakeOrder) != "[main:Output]" || len(f.IOIdsExhausted) != 0 || len(f.GoMultiValueArg) != 0 {
+		t.Errorf("facts: octal %v break-in-switch %d effect-call %v call %v make-order %v exhausted %v", f.OctalLits, f.BreakInSwitch, f.EffectCallStmt, f.CallStmt, f.IOMakeOrder, f.IOIdsExhausted)
+	}
+	for _, l := range []string{"lit-legacy-octal", "lit-hex", "lit-binary", "lit-leading-zero-same-value", "break-in-switch-in-for", "call-stmt-with-effect", "io-make-order-differs-from-declaration-order"} {
+		if !f.Labels[l] {
+			t.Errorf("label %s missing: %v", l, f.Labels)
+		}
+	}
+	// the dump of the compiler stuck on its ninth input is the no-answer deadlock, not slowness and not D8
+	dump := "goroutine 1 [chan receive]:\ngithub.com/BondMachineHQ/BondMachine/pkg/bondgo.(*BondgoCheck).Expr_eval(0x1)\nmain.main()\n\n" +
+		"goroutine 19 [chan receive]:\ngithub.com/BondMachineHQ/BondMachine/pkg/bondgo.(*BondgoRequirements).Usage_Monitor(0x1)\n\n" +
+		"goroutine 20 [chan receive]:\ngithub.com/BondMachineHQ/BondMachine/pkg/bondgo.(*BondgoRuninfo).Var_assigner(0x1)\n"
+	if got := classifyDump(dump); got != hangNoAnswer {
+		t.Errorf("classifyDump %q, expected %q", got, hangNoAnswer)
+	}
+	if got := classifyDump(strings.Replace(dump, "goroutine 19 [chan receive]", "goroutine 19 [runnable]", 1)); got != "slow" {
+		t.Errorf("classifyDump with a runnable goroutine %q, expected slow", got)
 	}
 }
